@@ -921,10 +921,12 @@ package route
 //@
 //@ func NewTableCustom
 //@   props C02
-//@   requires defs != nil && buildReady()
+//@   requires buildReady()
 //@   assigns mapsOf(map[string]Routes), elems(*Route), Route.Targets, Route.wTargets, elems(*Target), Target.Weight, Target.FixedWeight, Target.accessRules, elems(interface{}), mapsOf(map[string][]interface{}), ioWrites, lastWrite
 //@   ensures nopanic
 //@   ensures err != nil ==> t == nil
 //@   ensures err == nil ==> t != nil
+//@   # a JSON body of 'null' reaches this function as a nil pointer: rejected, never dereferenced
+//@   ensures defs == nil ==> err != nil
 //@   loop 1 invariant t != nil && fresh(t) && tableOK(t) && sepHosts(t) && defs != nil
 //@   loop 2 invariant t != nil && sepHosts(t)
